@@ -22,7 +22,6 @@ MCTotalsRaw == {<<0, 1>>}
 MCTotals3 == {<<1, 1>>, <<37, 100>>, <<0, 1>>}
 MCTotals4 == {<<1, 1>>, <<37, 100>>, <<0, 1>>, <<5, 2>>}
 MCTotalsBig == {<<5, 2>>}
-MCTotals2 == {<<1, 1>>, <<5, 2>>}
 HW == Handed(W, tot)                       \* the sampler's weight vector (rationals)
 
 Col(s, d) == [i \in 1..Len(s) |-> s[i][d]]
